@@ -228,7 +228,7 @@ func c14sites(c *Ctx) {
 	w := mon.New(log, "W", mon.ShapePlain)
 	slog.AddFlags(slog.LnoInterrupt, slog.Lcaller)
 	slog.RemoveFlags(slog.Lprivacypath, slog.Lprivacypathregexp)
-	entries := append(c14entries(), c14lineEntries()...)
+	entries := append(append(c14entries(), c14lineEntries()...), c14verboseEntries()...)
 	cwd, _ := os.Getwd()
 	savedDefault := slog.Default()
 	savedStd := stdslog.Default()
@@ -273,6 +273,10 @@ func c14sites(c *Ctx) {
 		}
 		cl := cells[idx]
 		e := entries[cl.e]
+		if strings.Contains(e.name, "Verbose") && !builtVerbose {
+			c.R.Add("cells_left_to_the_build_with_the_verbose_tag", 1)
+			return
+		}
 		defer slog.SetDefault(savedDefault)
 		defer stdslog.SetDefault(savedStd)
 		var lgL slog.Logger = slog.New("c14")
@@ -312,6 +316,21 @@ func c14sites(c *Ctx) {
 				target = ch
 			}
 		}
+		if idx%5 == 4 {
+			// a facade elsewhere derived "its own" logger from this one with With / WithAttrs / WithAttrs1 - and happened to
+			// pass NO attributes - and gave THAT logger a skip count: no business of the logger it was derived from
+			var fac *slog.Entry
+			switch (idx / 5) % 3 {
+			case 0:
+				fac = target.With()
+			case 1:
+				fac = target.WithAttrs()
+			default:
+				fac = target.WithAttrs1(nil)
+			}
+			fac.SetSkip(cl.skip + 2)
+			c.R.Add("cells_after_a_facade_derived_a_logger_without_attributes_and_gave_it_a_skip_count", 1)
+		}
 		if cl.kind == "default" {
 			slog.SetDefault(target)
 		}
@@ -347,6 +366,10 @@ func c14sites(c *Ctx) {
 			defer slog.AddFlags(slog.Llineno)
 		}
 		ctx := context.Background()
+		if idx%4 == 2 && (e.kind == "native" || e.kind == "pkg") {
+			ctx = nil // a nil context (where the entry point takes one) is a context without values: no input of the attribution
+			c.R.Add("cells_with_a_nil_context", 1)
+		}
 		var stack []site
 		// every 50th cell first issues records from 320 other call sites (more than any bounded per-call-site table is
 		// likely to hold): the sites of this cell, visited before in this process, are attributed as always
